@@ -39,7 +39,7 @@ Proof.
 Qed.
 
 (* ---------- symbol_needs_import on scopes that hold no use-checker ---------- *)
-Definition allplain (s : st) : Prop := forall i k c, dict_get (scope_dict s i) k <> Some (Chk c).
+Definition allplain (s : st) : Prop := forall i k e, dict_get (scope_dict s i) k = Some e -> e = Plain.
 Definition rootclosed (d : dict) : Prop := forall r q, dict_get d (r :: q) <> None -> dict_get d [r] <> None.
 Definition bound (s : st) (stk : stack) (x : name) : bool :=
   existsb (fun i => dict_has (scope_dict s i) [x]) stk.
@@ -57,11 +57,13 @@ Lemma needs_stack_plain : forall s, allplain s -> forall r ps,
   (forallb (fun i => match first_present (scope_dict s i) ps with None => true | Some _ => false end) r, s).
 Proof.
   intros s Hp r ps. induction r as [|i r IH]; cbn. reflexivity.
-  destruct (first_present (scope_dict s i) ps) as [[|c]|] eqn:E; auto.
-  exfalso. clear IH. induction ps as [|p ps IHp]; cbn in E. discriminate.
-  destruct (dict_get (scope_dict s i) p) eqn:E2.
-  - injection E as ->. eapply Hp. exact E2.
-  - auto.
+  assert (G : forall e, first_present (scope_dict s i) ps = Some e -> e = Plain).
+  { clear IH. induction ps as [|p ps IHp]; cbn; intros e E. discriminate.
+    destruct (dict_get (scope_dict s i) p) eqn:E2.
+    - injection E as <-. eapply Hp. exact E2.
+    - auto. }
+  destruct (first_present (scope_dict s i) ps) as [e|] eqn:E; auto.
+  rewrite (G e eq_refl). reflexivity.
 Qed.
 
 Lemma needs_bound : forall s stk n a, allplain s -> (forall i, rootclosed (scope_dict s i)) ->
@@ -242,8 +244,8 @@ Proof.
   intros stk s r q (Hp & Hr & Hs & Hf & Ht & Hd) Hk.
   destruct (set_in_scope_fields s (top stk) (r :: q) Plain) as (_ & _ & Efd & Edf & _).
   repeat split; auto; try congruence.
-  - intros i k c. rewrite scope_dict_set_in_scope. destruct (Nat.eqb (top stk) i); auto.
-    rewrite dict_get_set. destruct (dotted_eqb k (r :: q)); auto. discriminate.
+  - intros i k e. rewrite scope_dict_set_in_scope. destruct (Nat.eqb (top stk) i); [|apply Hp].
+    rewrite dict_get_set. destruct (dotted_eqb k (r :: q)); [|apply Hp]. congruence.
   - intros i r' q'. rewrite scope_dict_set_in_scope. destruct (Nat.eqb (top stk) i) eqn:E; [|apply Hr].
     apply Nat.eqb_eq in E. subst i. rewrite !dict_get_set.
     destruct (dotted_eqb [r'] (r :: q)) eqn:E1. intros _; discriminate.
@@ -787,8 +789,8 @@ Proof.
   repeat split; try congruence.
   - exact Hf'.
   - intro j. unfold scope_is_class. rewrite Hg. destruct (Nat.eqb j i). reflexivity. apply Hc.
-  - intros j k c. rewrite Hsd. destruct (Nat.eqb j i). 2: apply Hp.
-    intro H. apply plain_dict_get in H as [H _]. discriminate.
+  - intros j k e. rewrite Hsd. destruct (Nat.eqb j i). 2: apply Hp.
+    intro H. apply plain_dict_get in H as [H _]. exact H.
   - intro j. rewrite Hsd. destruct (Nat.eqb j i). apply plain_dict_rootclosed. apply Hr.
   - rewrite bound_app, orb_true_iff. intros [H|H].
     + rewrite (bound_ext s s') in H. apply Hb in H. rewrite concat_app, !in_app_iff in *. tauto.
@@ -846,8 +848,8 @@ Proof.
   { unfold InitInv. repeat split; try reflexivity.
     - intros j v Hin. cbn in Hin. destruct Hin as [Hin|[Hin|[]]]; injection Hin as <- _; cbn; unfold builtins_id, delayed_id; lia.
     - intro i. unfold scope_is_class, s0. cbn. destruct (Nat.eqb i builtins_id); auto. destruct (Nat.eqb i delayed_id); auto.
-    - intros i k c. unfold scope_dict, s0. cbn. destruct (Nat.eqb i builtins_id). cbn.
-      intro H. apply plain_dict_get in H as [H _]. discriminate.
+    - intros i k e. unfold scope_dict, s0. cbn. destruct (Nat.eqb i builtins_id). cbn.
+      intro H. apply plain_dict_get in H as [H _]. exact H.
       destruct (Nat.eqb i delayed_id); cbn; discriminate.
     - intro i. unfold scope_dict, s0. cbn. destruct (Nat.eqb i builtins_id). apply plain_dict_rootclosed.
       destruct (Nat.eqb i delayed_id); cbn; intros r q H; cbn in H; congruence.
@@ -876,7 +878,7 @@ Proof.
   2:{ intros j k. rewrite Hsd. destruct (Nat.eqb j i). cbn. congruence. apply Hks. }
   split.
   - repeat split; try congruence.
-    + intros j k c. rewrite Hsd. destruct (Nat.eqb j i). cbn. discriminate. apply Hp.
+    + intros j k e. rewrite Hsd. destruct (Nat.eqb j i). cbn. discriminate. apply Hp.
     + intro j. rewrite Hsd. destruct (Nat.eqb j i). intros r q H. cbn in H. congruence. apply Hr.
     + change (has_star s2 (ids ++ [i])) with (bound s2 (ids ++ [i]) n_star). rewrite Hbd.
       destruct (bound s1 ids n_star) eqn:E; auto. apply Hb in E. exfalso.
@@ -969,6 +971,7 @@ Lemma report_unused_no_checkers : forall d s, checkers s = [] -> unused s = [] -
   unused (report_unused_of s d) = [] /\ checkers (report_unused_of s d) = [].
 Proof.
   unfold report_unused_of. induction d as [|[k e] d IH]; intros s Hc Hu; cbn. auto.
-  destruct e as [|c]. apply IH; auto.
+  destruct e as [|c|cs]. apply IH; auto.
   unfold checker_at. rewrite Hc. destruct c; cbn; apply IH; auto.
+  apply IH; auto.
 Qed.
